@@ -201,6 +201,27 @@ CHECKS['C08'] = dict(
    technique='contract-based deductive verification of the shared discovery/verification layer + bounded runtime contracts on SQLite',
    design_ref='DESIGN.md 5 C08')
 
+CHECKS['C11'] = dict(
+   category='other',
+   text='Mixed. Proved on the real gentest.py: is_date_like never raises - each of its five datetime constructions is reached only '
+        'with field values that form a date, or its ValueError is handled, for every value the date regular expressions can capture '
+        '(integer encoding of the constructor precondition incl. leap years). Bounded (labelled): gentest() on a family of deterministic '
+        'shell commands completes, writes a script that compiles and a reference directory, leaves every pre-existing file untouched, and '
+        'the script passes when run straight afterwards in a subprocess.',
+   note='The subject is a program that writes a program: no contract on a function of /repo expresses "the emitted script passes"; '
+        'that sentence is bounded (31 commands quick / ~70 thorough).',
+   technique='contract-based deductive verification of is_date_like (noraise) + bounded end-to-end runtime contracts',
+   design_ref='DESIGN.md 5 C11')
+CHECKS['C12'] = dict(
+   category='exploration',
+   text='Bounded only (labelled): for each command of the C11 family, after generation every single change of behaviour (stdout '
+        'altered at the end / start / one character / truncated, stderr appended, exit status changed, output file content changed, '
+        'output file deleted) is applied and the generated script re-run in a subprocess: it must fail, the failure must be reported by '
+        'the test for that stream / status, the other tests must keep passing, and the unchanged command must keep passing.',
+   note='The property is about the behaviour of the emitted script; the exactness of the comparisons it calls is covered by C04/C15.',
+   technique='bounded runtime contracts (generate, perturb, re-run)',
+   design_ref='DESIGN.md 5 C12')
+
 NA_REASON = 'check under construction in this session (see DESIGN.md 8, build order)'
 
 def main():
